@@ -151,13 +151,24 @@ def _kernel(ctx: Ctx) -> None:
     if cur_name is None:
         return
     len_name = None
+    len_init: Any = None
+    ret_names = {n.id for r in ast.walk(fi.node) if isinstance(
+        r, ast.Return) and r.value is not None for n in ast.walk(r.value)
+        if isinstance(n, ast.Name) and n.id != "int"}
     for s in body:
-        if isinstance(s, (ast.Assign, ast.AnnAssign)) and s is not outer:
+        if isinstance(s, (ast.Assign, ast.AnnAssign)) and s is not outer \
+                and s.value is not None:
             tg = s.targets[0] if isinstance(s, ast.Assign) else s.target
-            if isinstance(tg, ast.Name) and repo.const(
-                    fi.module, s.value) == 0 and s.value is not None:
+            if isinstance(tg, ast.Name) and tg.id in ret_names and \
+                    len_name is None:
                 len_name = tg.id
-    ctx.need(len_name is not None, "length accumulator initialised with 0")
+                len_init = repo.const(fi.module, s.value)
+    ctx.need(len_name is not None, "game_plan_length: length accumulator")
+    ctx.ob("D8.1", fi, fi.node, len_init == 0,
+           f"`{len_name}` starts at 0" if len_init == 0 else
+           f"`{len_name}` starts at {len_init!r}, not 0: every plan's "
+           "length is off by that amount", construct="accumulator starts "
+           "at zero")
     L, C = Poly.var("LEN"), Poly.var("CUR")
     benv = env.copy()
     benv.vars[dvar] = day
